@@ -64,7 +64,23 @@ class P:
             nd = rng.randint(1, 28); fd = rng.randint(0, nd)
             digs = "".join(rng.choice("0123456789") for _ in range(nd))
             lits.append(digs if fd == 0 else (digs[:nd - fd] or "0") + "." + digs[nd - fd:])
+        # boundary magnitudes of every integer width a fast path could use, the decimal point at every kind of position,
+        # with and without leading zeros: 2^k and 10^k, one below and one above
+        bounds = []
+        for k in (7, 8, 15, 16, 24, 31, 32, 53, 63, 64, 95, 96):
+            bounds += [2 ** k - 1, 2 ** k, 2 ** k + 1]
+        for k in (9, 10, 18, 19, 20, 27, 28, 29):
+            bounds += [10 ** k - 1, 10 ** k, 10 ** k + 1]
+        bounds += [9300000000000000000, 9876543210987654321, 18446744073709551616 * 3, 4294967296 * 4294967295]
+        for bnd in bounds:
+            digs = str(bnd); nd = len(digs)
+            for fd in sorted({0, 1, nd // 2, nd - 1, nd}):
+                if fd > 28: continue
+                lit = digs if fd == 0 else (digs[:nd - fd] or "0") + "." + digs[nd - fd:]
+                lits.append(lit)
+                if fd in (0, nd // 2): lits.append("00" + lit)
         cases += flow.mk_cases("lit", [("EXEC:1:" + hx(l), ("lit", l)) for l in lits])
+        cases += flow.mk_cases("litsub", [("EXEC:1:" + hx("%d - %d" % (b, b - 1)), ("litsub", b)) for b in bounds if b < 2 ** 96])
         cases += flow.mk_cases("litcmp", [("EXEC:1:" + hx("%s == %s" % (a, b)), ("litcmp", a, b)) for a, b in
                                          [("1.10", "1.1"), ("1.0", "1"), ("0.0", "0"), ("0.1+0.2", "0.3"), ("1.10", "1.11"),
                                           ("100", "1.00*100"), ("0.30", "0.1*3")]])
@@ -165,4 +181,7 @@ class P:
                 if v[0] != "n" or values.num_q(v) != exact:
                     return "violates", "result %s != exact %s" % (d["value"], exact)
             return "ok", ""
+        if m[0] == "litsub":
+            if d["cls"] != "OK" or d["value"] != "n(0,1,0)":
+                return "violates", "%d - %d evaluated to %s" % (m[1], m[1] - 1, out[:60])
         return "ok", ""
